@@ -23,7 +23,7 @@ pub struct Case {
 
 pub fn gen_case(t_: &mut Tape, tier: Tier) -> Option<Case> {
     let mo = if t_.chance(0.3) { 1.0 / 64.0 } else { 0.15 };
-    let opts = PhysOpts { max_e: tier.pick(8, 9), max_l: 5, min_omega: mo, dmax: 6, max_ops: 3, profile: gen::PointProfile { xi_w: [0.25, 0.1, 0.55, 0.1], ..gen::MODERATE } };
+    let opts = PhysOpts { max_e: tier.pick(8, 9), max_l: 8, min_omega: mo, dmax: 6, max_ops: 3, profile: gen::PointProfile { xi_w: [0.25, 0.1, 0.55, 0.1], ..gen::MODERATE } };
     let p = if t_.chance(0.12) { gen::gen_phys_union(t_, &opts)? } else { gen::gen_phys(t_, &opts)? };
     let dim = gen::dimension(&p.g);
     let n = t_.range(1, 3);
